@@ -643,7 +643,18 @@ class Exec:
             st.assume(f(cx))
         # vacuity: requires must be satisfiable
         self.vcs.append(VC(f'{self.prefix}:vacuity:requires-satisfiable', list(st.pc), z3.BoolVal(False), kind='cover'))
-        outs = self.block(self.fn.body, st)
+        memo = self.decorator_semantics()
+        if memo:
+            # a memoising decorator: what the caller sees is the value cached by SOME earlier call with equal arguments — a function of the arguments alone, whatever the
+            # heap (and the body) say now; the body is therefore not what decides the postconditions
+            f = z3.Function(f'memoised_{c.qualname.replace(".", "_")}', *([S.PyObj()] * len(names)), S.PyObj())
+            res = f(*[entry[n_] for n_ in names]) if names else S.fresh('memoised')
+            if c.returns is not S.Any and c.returns.kind != 'any':
+                st.assume(S.has_type(res, c.returns, st.next_ref))
+            self.notes.append(f'{c.name}: decorated with {memo}: modelled as a function of the arguments only (stale results are possible)')
+            outs = [Outcome('return', st, V(res, c.returns))]
+        else:
+            outs = self.block(self.fn.body, st)
         for o in outs:
             if o.kind == 'normal':
                 self.finish(o.st, V(S.NONE(), S.NoneT))
@@ -656,6 +667,22 @@ class Exec:
         for vc in self.vcs:
             vc.hyps = list(self.global_axioms) + vc.hyps
         return self.vcs
+
+    TRANSPARENT_DECORATORS = ('profile', 'staticmethod', 'classmethod', 'abstractmethod', 'abc.abstractmethod', 'override', 'typing.override')
+    MEMO_DECORATORS = ('lru_cache', 'functools.lru_cache', 'cache', 'functools.cache', 'cached_property', 'functools.cached_property')
+
+    def decorator_semantics(self):
+        """decorators change what a call of the function does; only the ones known to be transparent are ignored"""
+        memo = None
+        for d in getattr(self.fn, 'decorator_list', []):
+            name = ast.unparse(d.func if isinstance(d, ast.Call) else d)
+            if name in self.TRANSPARENT_DECORATORS:
+                continue
+            if name in self.MEMO_DECORATORS:
+                memo = '@' + ast.unparse(d)
+                continue
+            raise Unsupported(f'decorator @{ast.unparse(d)} on {self.c.qualname}: its effect on the function is not modelled')
+        return memo
 
     def ctx(self, st, **extra):
         p = NS(self.entry)
